@@ -62,9 +62,9 @@ m("c03-lenient-base64", ["C03"], "payload decoding tolerates non-canonical trail
     "    base64::engine::GeneralPurpose::new(&base64::alphabet::URL_SAFE, base64::engine::GeneralPurposeConfig::new().with_decode_allow_trailing_bits(true).with_decode_padding_mode(base64::engine::DecodePaddingMode::Indifferent)).decode(self.as_ref())")])
 
 # ---- C04: v4 auth key derived from half the key -----------------------------------------------------------
-m("c04-v4l-half-key", ["C04"], "v4.local derives the authentication AND encryption key from the first 16 key bytes only",
-  [("src/core/common/authentication_key_impl/v4_local.rs", "Blake2bMac::<U32>::new_from_slice(key.as_ref()).unwrap();", "Blake2bMac::<U32>::new_from_slice(&key.as_ref()[..16]).unwrap();"),
-   ("src/core/common/encryption_key_impl/v4_local.rs", "Blake2bMac::<U56>::new_from_slice(key.as_ref()).unwrap();", "Blake2bMac::<U56>::new_from_slice(&key.as_ref()[..16]).unwrap();")])
+m("c04-v3l-half-key", ["C04"], "v3.local derives the authentication AND encryption key from the first 16 key bytes only",
+  [("src/core/common/authentication_key_impl/v3_local.rs", "salt.extract(key.as_ref())", "salt.extract(&key.as_ref()[..16])"),
+   ("src/core/common/encryption_key_impl/v3_local.rs", "salt.extract(key.as_ref())", "salt.extract(&key.as_ref()[..16])")])
 
 # ---- C05: footer comparison dropped -----------------------------------------------------------------------
 m("c05-footer-compare-dropped", ["C05", "C03"], "parse_raw_token no longer compares the footer of 4-segment tokens (still in PAE via expectation)",
@@ -127,7 +127,7 @@ m("c12-nbf-inverted", ["C12"], "nbf validator comparison inverted",
 
 # ---- C13 ------------------------------------------------------------------------------------------------
 m("c13-default-lifetime-10h", ["C13"], "default expiry is now + 10 h",
-  [("src/prelude/paseto_builder.rs", "time::Duration::hours(1)", "time::Duration::hours(10)")])
+  [("src/prelude/paseto_builder.rs", "    let in_one_hour = now + time::Duration::hours(1);", "    let in_one_hour = now + time::Duration::hours(10);")])
 m("c13-drain-restored", ["C13", "C17"], "build_payload_from_claims drains the claim map again",
   [("src/generic/builders/generic_builder.rs",
     "        let serialized_claims: HashMap<String, Value> = self\n            .claims\n            .iter()\n            .map(|(k, v)| (k.clone(), serde_json::to_value(v).unwrap_or(Value::Null)))\n            .collect();",
@@ -162,8 +162,8 @@ m("c17-insert-result-ignored-for-custom", ["C17"], "duplicates are only detected
   [("src/prelude/paseto_builder.rs", "    if !self.top_level_claims.insert(value.get_key().to_string()) {", "    if !self.top_level_claims.insert(value.get_key().to_string()) && value.get_key().len() == 3 {")])
 
 # ---- C18 ------------------------------------------------------------------------------------------------
-m("c18-jti-not-reserved", ["C18"], "RESERVED_CLAIMS misses jti (placeholder keeps array length)",
-  [("src/generic/claims/custom_claim.rs", '["iss", "sub", "aud", "exp", "nbf", "iat", "jti"]', '["iss", "sub", "aud", "exp", "nbf", "iat", "jit"]')])
+m("c18-key-only-form-unchecked", ["C18"], "CustomClaim::try_from(&str) (key-only form) no longer checks for reserved keys",
+  [("src/generic/claims/custom_claim.rs", "  fn try_from(key: &str) -> Result<Self, Self::Error> {\n    Self::check_if_reserved_claim_key(key)?;\n", "  fn try_from(key: &str) -> Result<Self, Self::Error> {\n")])
 m("c18-case-insensitive-reserved", ["C18"], "reserved check ignores ASCII case",
   [("src/generic/claims/custom_claim.rs", "key if Self::RESERVED_CLAIMS.contains(&key) =>", "key if Self::RESERVED_CLAIMS.iter().any(|r| r.eq_ignore_ascii_case(key)) =>")])
 m("c18-exp-trims", ["C18"], "ExpirationClaim::try_from(&str) trims its input",
